@@ -802,4 +802,26 @@ def assignments : Nat → List (List Ty)
 def ltypable (n : Nat) (prog : List LStmt) : Bool :=
   (assignments n).any fun a => prog.all (LStmt.holds a)
 
+/-! ### Anonymous record literals (record variables)
+
+  `{ a: 1, b: true }` has a record type with exactly these fields, in any
+  order; each field's type is that of its value (flexible for unsuffixed
+  literals). It fits a record type (anonymous or named) iff the literal names
+  every field of that type exactly once and nothing else, and each value fits
+  its field. -/
+
+/-- the literal `lit` may be used where a record with fields `target` is expected -/
+def recLitFits (lit target : List (Nat × Ty)) : Bool :=
+  !hasDup (lit.map (·.1)) && lit.length == target.length &&
+  lit.all fun f => match target.lookup f.1 with
+    | some u => compat f.2 u
+    | none => false
+
+/-- `lit.f` may be used where a `ty` is expected / a value of type `ty` may be assigned to `lit.f` -/
+def recFieldFits (lit : List (Nat × Ty)) (f : Nat) (ty : Ty) : Bool :=
+  !hasDup (lit.map (·.1)) &&
+  match lit.lookup f with
+  | some t => compat t ty
+  | none => false
+
 end RotoV.Typing
